@@ -70,6 +70,9 @@ def run_case(case):
         dists = [0.5 * r[0], 1.02 * r[0], r[0] + 0.55 * (r[1] - r[0]), 1.01 * r[-1], R[-1] - 0.03, R[-1] + 0.03, 1.6 * r[-1]]
         if n_t > 2:
             dists.append(r[1] + 0.45 * (r[2] - r[1]))
+        for k_ in range(n_t - 1):          # just below and just above every interior shell boundary
+            step_ = r[k_ + 1] - r[k_]
+            dists += [R[k_] - 0.03 * step_, R[k_] + 0.03 * step_]
         frames, truth = [], []
         amb = 0
         for q in quats:
